@@ -872,6 +872,9 @@ func TestVerif(t *testing.T) {
 	}
 	for _, sc := range c02Scenarios(ctx) {
 		sc := sc
+		if only := ctx.ParamS("only", ""); only != "" && !strings.Contains(sc.Name, only) {
+			continue
+		}
 		h := new(c02Hist)
 		units = append(units, unit{sc.Name, sc.Big, c02Body(sc, h), func(s *vs.Sched) (string, string) { return c02Verdict(sc, h, s) },
 			func(ch []int) c02Replay { return c02Replay{Scn: sc, Choices: ch} }})
